@@ -46,6 +46,8 @@ Grid == <<
   G("(/ 1 -2)", Rt(-1, 2)), G("(/ -1 -2)", Rt(1, 2)), G("(/ 4 -6)", Rt(-2, 3)), G("(+ 1/4 1/4)", Rt(1, 2)),
   G("(* 2/3 3/2)", I(1)), G("(- 1/2 1/2)", I(0)), G("(/ 6 3)", I(2)), G("(/ 0 5)", I(0)), G("(* 1/2 2)", I(1)),
   G("(- 7)", I(-7)), G("(/ -7 2)", Rt(-7, 2)),
+  \* ... and by max/min, whose contagion step converts the operands before one of them is returned
+  G("(max 3 1/2)", I(3)), G("(min -2 1/3)", I(-2)), G("(max 1/3 1/2 0)", Rt(1, 2)),
   \* reals
   G("0.0", PosZero), G("-0.0", NegZero), G("0.5", F(0, 126, 0)), G("-0.5", F(1, 126, 0)), G("1.5", F(0, 127, 4194304)),
   G("0.1", F(0, 123, 5033165)), G("0.25", F(0, 125, 0)), G("2.5", F(0, 128, 2097152)), G("-2.5", F(1, 128, 2097152)),
